@@ -214,6 +214,13 @@ func (w *world) opInsert(t *inst, op Op) {
 		}
 	default:
 		w.stats.Inc("mut")
+		if err != nil && t.stale {
+			// an operation of a stale child (its parent chain dropped nodes it still references) failed half-way:
+			// it returned an error, but nodes it had already replaced are gone from its own level. If its merge is
+			// later accepted because the parent came back to the very same root (ABA), the parent inherits that.
+			t.degraded = true
+			w.stats.Inc("relaxed.stale-child-op-failed")
+		}
 		if err != nil {
 			if w.has("C01") || w.has("C02") {
 				w.fail("c01.insert-return", "insert:"+rel+":ret="+errClass(err), "Insert(%q) returned %v", p, err)
@@ -243,6 +250,10 @@ func (w *world) expectDelete(t *inst, p string, present bool, rel string, before
 		w.stats.Inc("mut")
 		w.stats.Inc("probe.delete-present")
 		w.stats.Inc("probe.any")
+		if err != nil && t.stale {
+			t.degraded = true // see opInsert: a stale child's failed operation leaves it half-applied
+			w.stats.Inc("relaxed.stale-child-op-failed")
+		}
 		if err != nil {
 			if w.has("C01") || w.has("C02") {
 				w.fail("c01.delete-return", how+":present:ret="+errClass(err), "%s of present path %q returned %v", how, p, err)
